@@ -1918,7 +1918,7 @@ impl Prop for C10 {
     fn generate(&self, tier: Tier, rng: &mut Rng) -> Vec<Case> {
         let (n_valid, n_mut, n_bytes) = if tier == Tier::Quick { (2500, 9000, 6000) } else { (25000, 120000, 60000) };
         let mut out = vec![];
-        let mut emit = |doc: &Doc, si: &SchemaInfo, view: &Sexp, mut tags: Vec<String>, also_parse: bool, out: &mut Vec<Case>| {
+        let emit = |doc: &Doc, si: &SchemaInfo, view: &Sexp, mut tags: Vec<String>, also_parse: bool, out: &mut Vec<Case>| {
             histogram_doc_tags(doc, &mut tags);
             tags.push(format!("schema:{}", si.id));
             let dx = doc_to_sexp(doc);
